@@ -1503,6 +1503,9 @@ class Interp:
         if isinstance(f, ExcClass):
             return ExcInstance(f.name, tuple(args))
         if isinstance(f, Opaque):
+            oh = getattr(self, "opaque_hooks", None)
+            if oh and str(f.why) in oh:
+                return oh[str(f.why)](self, *args, **kwargs)     # contract-supplied abstraction of an unmodelled library call
             if str(f.why).startswith(("logging.", "warnings.warn")):
                 return None     # logging has no effect on any value the program computes
             raise Unsupported(f"call of {f}")
